@@ -153,6 +153,17 @@ check('C10', 'model_checking',
       'TLA+ resolution contract, TLC judgement of routing facts extracted from real plans',
       'DESIGN.md 2.7, 5/C10')
 
+check('C14', 'model_checking',
+      'ModelJoin.tla defines for a WHERE tree its top-level conjuncts, the atoms that may be pushed to the table, the '
+      'atoms that become model arguments, and the residual filter (3-valued equivalence over all valuations); '
+      'ModelJoinGen enumerates all 655 WHERE trees of depth <= 2 over 5 atoms and proves pushing sound; each is '
+      'rendered in 6 join spellings and planned; TLC judges the facts read off the plan (pushed conditions, row_dict, '
+      'outer filter); USING params, column map, model identity/version and the model input step are compared.',
+      'One table-model pair (plus a second table variant); atoms are column-vs-constant comparisons; plan_predictor '
+      '(dead code) is not exercised.',
+      'TLA+ contract on WHERE trees, TLC-enumerated trees replayed into the planner, TLC-judged plan facts',
+      'DESIGN.md 2.7, 5/C14')
+
 ALL = ['C%02d' % i for i in range(1, 21)]
 
 
